@@ -35,6 +35,10 @@ type evalReq struct {
 
 var evalProcessCh = make(chan evalReq, 100)
 
+// evalOnce starts the evaluation routines once. They serve every render
+// and never exit, starting a new set per render would leak them.
+var evalOnce sync.Once
+
 // evalRoutines starts a set of concurrent evaluation routines.
 func evalRoutines() {
 	for i := 0; i < runtime.NumCPU(); i++ {
@@ -139,8 +143,8 @@ func marchingCubes(s sdf.SDF3, box sdf.Box3, step float64, output sdf.Triangle3W
 	steps := conv.V3ToV3i(size.DivScalar(step).Ceil())
 	inc := size.Div(conv.V3iToV3(steps))
 
-	// start the evaluation routines
-	evalRoutines()
+	// start the evaluation routines (once)
+	evalOnce.Do(evalRoutines)
 
 	// create the SDF layer cache
 	l := newLayerYZ(base, inc, steps)
